@@ -107,9 +107,9 @@ def worker_chunk(args, real_openql=False):
             if op == "OBS":
                 seen_obs = True
                 agg["observers"] += 1
-            elif op in ("FLUSH", "SINK_FAIL", "GC", "IDLE"):
+            elif op in ("FLUSH", "SINK_FAIL", "GC", "IDLE", "DROP"):
                 agg["faults"] += 1
-                if op in ("FLUSH", "GC"):
+                if op in ("FLUSH", "GC", "DROP"):
                     agg["fired"][op] = agg["fired"].get(op, 0) + 1
             else:
                 agg["mutations"] += 1
